@@ -1,8 +1,11 @@
 //! C16 — configuration abstractions are transparent (metamorphic check).
 //!
 //! A generated configuration is rewritten with semantically neutral indirection (defalias, defvar
-//! incl. concat, deftemplate / template-expand / t! with if-equal, include, platform incl. an
-//! inactive-platform decoy, deflayer -> deflayermap), singly and in random compositions. Required:
+//! incl. concat, chains of 2-3 variables whose whole value is another variable — written in every
+//! definition order, in one defvar block or spread over several defvar forms, standing for a
+//! number, a key, a list, a string or the value of another variable —, deftemplate /
+//! template-expand / t! with if-equal, include, platform incl. an inactive-platform decoy,
+//! deflayer -> deflayermap), singly and in random compositions. Required:
 //! the rewritten text is accepted iff the original is; the parsed artefacts agree (mapped keys, key
 //! outputs, overrides, sequences, virtual-key map, options, Debug rendering of every mapped layer
 //! cell); the OS traces on random histories are identical tick by tick.
@@ -18,7 +21,8 @@ use std::collections::BTreeMap;
 pub struct C16Check;
 pub static C16: C16Check = C16Check;
 
-const KINDS: [&str; 11] = ["alias", "var-action", "var-atom", "var-concat", "template", "template-if-equal", "template-nested-cond", "template-toplevel-form", "include", "platform", "layermap"];
+const NK: u64 = 13;
+const KINDS: [&str; NK as usize] = ["alias", "var-action", "var-atom", "var-concat", "var-chain", "var-chain-fwd", "template", "template-if-equal", "template-nested-cond", "template-toplevel-form", "include", "platform", "layermap"];
 
 fn profile() -> Profile {
     // kinds whose run-time behaviour crashes on the unchanged tree (C02's findings) or sleeps are left out
@@ -79,6 +83,38 @@ fn number_children(n: &Node) -> Vec<usize> {
     };
     idx.into_iter().filter(|&i| i < l.len() && is_number(&l[i])).collect()
 }
+
+/// indices of children of `n` that are free-form strings or names (layer names, virtual-key names, message items, the unicode character)
+fn string_children(n: &Node) -> Vec<usize> {
+    let Node::List(l) = n else { return vec![] };
+    let Some(h) = head(n) else { return vec![] };
+    let idx: Vec<usize> = match h {
+        "layer-switch" | "layer-while-held" | "layer-toggle" | "release-layer" | "unicode" | "on-press-fakekey" | "on-release-fakekey" => vec![1],
+        "on-press" | "on-release" => vec![2],
+        "push-msg" => (1..l.len()).collect(),
+        _ => vec![],
+    };
+    idx.into_iter().filter(|&i| matches!(l.get(i), Some(Node::Atom(a)) if !a.starts_with('$') && !a.starts_with('@'))).collect()
+}
+/// indices of children of `n` that are lists but not actions (key lists, message sub-lists)
+fn plain_list_children(n: &Node) -> Vec<usize> {
+    let Node::List(l) = n else { return vec![] };
+    let Some(h) = head(n) else { return vec![] };
+    let idx: Vec<usize> = match h {
+        "fork" => vec![3],
+        "tap-hold-release-keys" | "tap-hold-except-keys" => vec![5],
+        "push-msg" => (1..l.len()).collect(),
+        _ => vec![],
+    };
+    idx.into_iter().filter(|&i| matches!(l.get(i), Some(Node::List(_)))).collect()
+}
+fn is_key_like(a: &str) -> bool {
+    // an action name cannot be a variable: only key-like atoms
+    !a.is_empty() && a.chars().all(|c| c.is_ascii_alphanumeric()) && a != "rpt" && a != "sldr"
+}
+
+/// the positions a variable chain can stand for
+const SITE_CLASSES: [&str; 6] = ["action-list", "plain-list", "key", "number", "string", "var-value"];
 
 /// paths of all action positions: layer cells and alias values (also inside a platform wrapper), then nested
 fn action_sites(forms: &[Node]) -> Vec<Vec<usize>> {
@@ -146,11 +182,13 @@ struct Rw {
     focus: Option<usize>,
     /// after a rewrite that creates a definition (defalias / defvar / deftemplate): move the focus to it
     follow_def: bool,
+    /// what the chain rewrites did (counter names)
+    notes: Vec<String>,
 }
 
 impl Rw {
     fn new(forms: Vec<Node>) -> Rw {
-        Rw { items: forms.into_iter().map(|node| Item { node, file: None }).collect(), file_names: vec![], n: 0, applied: vec![], focus: None, follow_def: false }
+        Rw { items: forms.into_iter().map(|node| Item { node, file: None }).collect(), file_names: vec![], n: 0, applied: vec![], focus: None, follow_def: false, notes: vec![] }
     }
     fn fresh(&mut self, p: &str) -> String {
         self.n += 1;
@@ -320,6 +358,147 @@ impl Rw {
         };
         let pos = self.insert(pos, def, rng);
         self.created_def(pos);
+        true
+    }
+
+    /// every position a chained variable can stand for: (item, path, class index into SITE_CLASSES)
+    fn chain_sites(&self) -> Vec<(usize, (Vec<usize>, usize))> {
+        let forms = self.nodes();
+        let mut sites: Vec<(usize, (Vec<usize>, usize))> = vec![];
+        for p in action_sites(&forms) {
+            let Some(n) = sexp::get(&forms, &p) else { continue };
+            match n {
+                Node::Atom(a) => {
+                    if is_key_like(a) {
+                        sites.push((p[0], (p, 2)));
+                    }
+                }
+                Node::List(_) => {
+                    for (cls, idx) in [(1usize, plain_list_children(n)), (3, number_children(n)), (4, string_children(n))] {
+                        for i in idx {
+                            let mut q = p.clone();
+                            q.push(i);
+                            sites.push((q[0], (q, cls)));
+                        }
+                    }
+                    sites.push((p[0], (p, 0)));
+                }
+            }
+        }
+        // the whole value of an existing variable (a concat value is evaluated where it is written, it is left alone)
+        for (fi, f) in forms.iter().enumerate() {
+            if let (Some("defvar"), Node::List(l)) = (head(f), f) {
+                for i in (2..l.len()).step_by(2) {
+                    if head(&l[i]) != Some("concat") {
+                        sites.push((fi, (vec![fi, i], 5)));
+                    }
+                }
+            }
+        }
+        sites
+    }
+
+    /// A value is named by a chain of 2-3 variables: the site becomes $v0, v0 = $v1, (v1 = $v2,) the last one is the value.
+    /// `forward` = false: every variable is defined after the one it refers to (the order the guide's example uses);
+    /// true: any other definition order, so at least one variable's whole value is a variable defined LATER, in the
+    /// same defvar block or in a later defvar form.
+    fn var_chain(&mut self, rng: &mut Rng, forward: bool) -> bool {
+        let sites = self.focused(self.chain_sites());
+        if sites.is_empty() {
+            return false;
+        }
+        // a class first, so that rare classes are not drowned by the many key atoms
+        let mut classes: Vec<usize> = sites.iter().map(|s| s.1).collect();
+        classes.sort();
+        classes.dedup();
+        let cls = *rng.pick(&classes);
+        let of_class: Vec<Vec<usize>> = sites.into_iter().filter(|s| s.1 == cls).map(|s| s.0).collect();
+        let site = rng.pick(&of_class).clone();
+        let len = 2 + rng.usize(2);
+        let names: Vec<String> = (0..len).map(|_| self.fresh("zv")).collect();
+        let Some(slot) = self.node_mut(&site) else { return false };
+        let old = std::mem::replace(slot, atom(&format!("${}", names[0])));
+        let mut tail_concat = false;
+        let value = match &old {
+            Node::Atom(a) if (cls == 2 || cls == 3) && a.len() >= 2 && a.is_ascii() && rng.chance(1, 4) => {
+                tail_concat = true;
+                let cut = 1 + rng.usize(a.len() - 1);
+                let (x, y) = a.split_at(cut);
+                list(vec![atom("concat"), atom(x), atom(&format!("\"{y}\""))])
+            }
+            _ => old,
+        };
+        let mut defs: Vec<(Node, Node)> = vec![];
+        for i in 0..len {
+            let v = if i + 1 < len { atom(&format!("${}", names[i + 1])) } else { value.clone() };
+            defs.push((atom(&names[i]), v));
+        }
+        // definition order: which link is written first, second, ...
+        let backward: Vec<usize> = (0..len).rev().collect();
+        let mut order = backward.clone();
+        if forward {
+            while order == backward {
+                rng.shuffle(&mut order);
+            }
+        }
+        let fwd_links = (0..len - 1).filter(|&i| order.iter().position(|&x| x == i) < order.iter().position(|&x| x == i + 1)).count();
+        self.notes.push(format!("chain_site:{}", SITE_CLASSES[cls]));
+        self.notes.push(format!("chain_len:{len}"));
+        self.notes.push(format!("chain_order:{}", order.iter().map(|i| format!("v{i}")).collect::<Vec<_>>().join("-")));
+        self.notes.push(format!("chain_forward_links:{fwd_links}"));
+        if tail_concat {
+            self.notes.push("chain_tail_concat".into());
+        }
+        if cls == 5 && !forward {
+            // the value of an existing variable may refer to variables defined before it: to keep every reference
+            // pointing backwards the new links are written into the same defvar form, directly in front of that variable
+            let (fi, vi) = (site[0], site[1]);
+            let Some(Node::List(l)) = self.items.get_mut(fi).map(|it| &mut it.node) else { return false };
+            let mut at = vi - 1;
+            for &i in &order {
+                l.insert(at, defs[i].0.clone());
+                l.insert(at + 1, defs[i].1.clone());
+                at += 2;
+            }
+            self.notes.push("chain_layout:same-form-in-front".into());
+            return true;
+        }
+        // groups of consecutive definitions that share one defvar form
+        let layout = rng.usize(if len == 3 { 3 } else { 2 });
+        let groups: Vec<Vec<usize>> = match layout {
+            0 => vec![order.clone()],
+            1 => order.iter().map(|&i| vec![i]).collect(),
+            _ => {
+                if rng.coin() {
+                    vec![vec![order[0], order[1]], vec![order[2]]]
+                } else {
+                    vec![vec![order[0]], vec![order[1], order[2]]]
+                }
+            }
+        };
+        // all defvar forms are read before anything that uses them: the positions are free, only their relative order matters here
+        let mut pos = match rng.usize(3) {
+            0 => site[0].min(self.items.len()),
+            1 => self.items.len(),
+            _ => rng.usize(self.items.len() + 1),
+        };
+        let mut first = None;
+        for (gi, g) in groups.iter().enumerate() {
+            if gi > 0 {
+                pos = pos + 1 + rng.usize(self.items.len() - pos);
+            }
+            let mut f = vec![atom("defvar")];
+            for &i in g {
+                f.push(defs[i].0.clone());
+                f.push(defs[i].1.clone());
+            }
+            pos = self.insert(pos, list(f), rng);
+            first.get_or_insert(pos);
+        }
+        if let Some(p) = first {
+            self.created_def(p);
+        }
+        self.notes.push(format!("chain_layout:{}", ["one-block", "separate-forms", "split"][layout]));
         true
     }
 
@@ -593,6 +772,8 @@ impl Rw {
             "var-action" => self.var(rng, 0),
             "var-atom" => self.var(rng, 1),
             "var-concat" => self.var(rng, 2),
+            "var-chain" => self.var_chain(rng, false),
+            "var-chain-fwd" => self.var_chain(rng, true),
             "template" => self.template(rng, 0),
             "template-if-equal" => self.template(rng, 1),
             "template-nested-cond" => self.template(rng, 2),
@@ -661,16 +842,24 @@ fn first_line_diff(a: &str, b: &str) -> String {
     format!("lengths {} <> {}", a.len(), b.len())
 }
 
+struct Variant {
+    kinds: Vec<&'static str>,
+    text: String,
+    files: Vec<(String, String)>,
+    /// counters describing what the chain rewrites did
+    notes: Vec<String>,
+}
+
 struct Case {
     g: GenCfg,
-    variants: Vec<(Vec<&'static str>, String, Vec<(String, String)>)>,
+    variants: Vec<Variant>,
     hists: Vec<Vec<Ev>>,
 }
 
-const N_SINGLE: u64 = 11 * 30;
+const N_SINGLE: u64 = NK * 30;
 /// every ordered pair of rewrite kinds x {second rewrite on the same item, second rewrite on the
 /// definition the first one created} x 2 configurations
-const N_PAIR: u64 = 11 * 11 * 2 * 2;
+const N_PAIR: u64 = NK * NK * 2 * 2;
 const N_SYS: u64 = N_SINGLE + N_PAIR;
 
 fn focus_candidates(forms: &[Node]) -> Vec<usize> {
@@ -688,10 +877,10 @@ fn make_case(ctx: &Ctx, idx: u64) -> Case {
         // (kinds, focus an item?, follow created definitions?)
         let mut plans: Vec<(Vec<&'static str>, bool, bool)> = vec![];
         if idx < N_SINGLE {
-            plans.push((vec![KINDS[(idx % 11) as usize]], false, false));
+            plans.push((vec![KINDS[(idx % NK) as usize]], false, false));
         } else if sys {
             let k = idx - N_SINGLE;
-            let (a, b, follow) = ((k % 11) as usize, ((k / 11) % 11) as usize, (k / 121) % 2 == 1);
+            let (a, b, follow) = ((k % NK) as usize, ((k / NK) % NK) as usize, (k / (NK * NK)) % 2 == 1);
             plans.push((vec![KINDS[a], KINDS[b]], true, follow));
         } else {
             plans.push((vec![*rng.pick(&KINDS)], false, false));
@@ -714,7 +903,7 @@ fn make_case(ctx: &Ctx, idx: u64) -> Case {
             }
             if !rw.applied.is_empty() {
                 let (text, files) = rw.output();
-                variants.push((rw.applied.clone(), text, files));
+                variants.push(Variant { kinds: rw.applied.clone(), text, files, notes: rw.notes.clone() });
             }
         }
     }
@@ -744,7 +933,7 @@ impl Check for C16Check {
     }
     fn describe(&self, ctx: &Ctx, idx: u64) -> Value {
         let c = make_case(ctx, idx);
-        json!({"config": c.g.text, "variants": c.variants.iter().map(|(k, t, f)| json!({"rewrites": k, "config": t, "files": f})).collect::<Vec<_>>(), "histories": c.hists.iter().map(|h| render_hist(h)).collect::<Vec<_>>()})
+        json!({"config": c.g.text, "variants": c.variants.iter().map(|v| json!({"rewrites": v.kinds, "config": v.text, "files": v.files})).collect::<Vec<_>>(), "histories": c.hists.iter().map(|h| render_hist(h)).collect::<Vec<_>>()})
     }
     fn run_case(&self, ctx: &Ctx, idx: u64) -> CaseOut {
         let mut out = CaseOut::new();
@@ -764,16 +953,20 @@ impl Check for C16Check {
             out.inc("originals_with_unstable_rendering");
         }
         let mut orig_traces: Vec<Option<Sim>> = vec![];
-        for (kinds, text, files) in &c.variants {
+        for Variant { kinds, text, files, notes } in &c.variants {
             let mut ks: Vec<&str> = kinds.clone();
             ks.sort();
             ks.dedup();
-            // one rewrite kind: its name; several different kinds: "composed" (the witness lists them)
-            let label = if ks.len() == 1 { ks[0].to_string() } else if kinds.len() == 2 { format!("{}>{}", kinds[0], kinds[1]) } else { "composed".to_string() };
+            // one rewrite kind: its name; two: "a>b"; several different kinds: "composed" (the witness lists them), kept apart
+            // when a variable chain written against the definition order is among them
+            let label = if ks.len() == 1 { ks[0].to_string() } else if kinds.len() == 2 { format!("{}>{}", kinds[0], kinds[1]) } else if ks.contains(&"var-chain-fwd") { "composed-with-var-chain-fwd".to_string() } else { "composed".to_string() };
             for k in kinds {
                 out.inc(&format!("applied:{k}"));
             }
             out.inc("variants");
+            for n in notes {
+                out.inc(n);
+            }
             if kinds.len() > 1 {
                 out.inc("variants_composed");
             }
@@ -799,6 +992,9 @@ impl Check for C16Check {
                 }
                 (Ok(a), Ok(b)) => {
                     out.inc("both_accepted");
+                    for n in notes {
+                        out.inc(&format!("accepted_{n}"));
+                    }
                     out.tag(format!("acc:{label}:{}", c.g.kinds_used.iter().take(6).copied().collect::<Vec<_>>().join(",")));
                     let mut artefacts_equal = true;
                     for (k, va) in a {
@@ -833,6 +1029,9 @@ impl Check for C16Check {
                                     out.violate(format!("C16:end-state-differs:{label}"), format!("end state differs after rewriting with {kinds:?}"), witness(json!({"original": sa.os.describe(), "rewritten": sb.os.describe()}), json!("identical"), render_hist(h)));
                                 } else {
                                     out.inc("traces_equal");
+                                    if kinds.contains(&"var-chain-fwd") {
+                                        out.inc("forward_chain_traces_equal");
+                                    }
                                     if !sa.trace.is_empty() {
                                         out.inc("nonempty_traces_equal");
                                     }
@@ -847,19 +1046,20 @@ impl Check for C16Check {
             }
         }
         if idx % 300 == 11 || idx == 2 {
-            if let Some((k, t, f)) = c.variants.last() {
-                out.sample = Some(json!({"idx": idx, "original": c.g.text, "rewrites": k, "rewritten": t, "files": f}));
+            if let Some(v) = c.variants.last() {
+                out.sample = Some(json!({"idx": idx, "original": c.g.text, "rewrites": v.kinds, "rewritten": v.text, "files": v.files}));
             }
         }
         out
     }
     fn rule(&self) -> String {
-        "case = one grammar-generated configuration (whole action grammar except rpt-any, dynamic macros, on-press/release-delay and chords v2; boundary numbers and deliberately rejected ones included) x up to 3 rewritten variants: one single rewrite, one composition of 2-3 applied to the SAME top-level item (optionally following the definition the previous rewrite created), one free composition of 2-4 (quick) / 2-6 (thorough), drawn from 11 kinds {defalias + @name at an action position of a layer cell or alias value or nested in multi/tap-hold/fork/switch/tap-dance; defvar of a whole action list; defvar of a key atom or timeout number; the same through (concat ..); deftemplate with the sub-action or number as argument expanded with t!/template-expand; the same guarded by if-equal / if-not-equal with decoy branches; the same with conditionals nested 2-3 deep (if-equal, if-not-equal, if-in-list, if-not-in-list, true and false branches, false branches containing conditionals that would hold) both at the top of the template body and inside the action list; a whole deflayer / defalias item written as a template body with such conditionals inside its list and put back by a top-level expansion; 1-3 consecutive top-level items moved into an included file; items wrapped in (platform (linux) ..) plus an unparsable (platform (win winiov2) ..) decoy; a deflayer rewritten as deflayermap}. The configuration is kept as one flat item list with a file tag per item, so rewrites apply equally inside included files: platform-wrapped items, template definitions and expansions, aliases and variables can be defined in an included file and used in the main file after the include and vice versa. The first 814 cases are the same for every seed: each kind singly on 30 configurations, then every ordered pair of kinds (121) applied to the same item, once staying on the item and once following the created definition, on 2 configurations each. Compared: accept/reject, mapped keys, key outputs, overrides, sequence trie, virtual-key map, options, layer names, Debug rendering of every mapped layer cell and virtual-key cell of every layer, and the OS trace (tick-exact, redundant releases dropped) + end state on 2 random physically consistent histories with OS repeats and gaps around every configured number. Non-trivial = variant with at least one rewrite applied; distinct = (accept/reject, rewrite kinds, action kinds in the configuration).".into()
+        "case = one grammar-generated configuration (whole action grammar except rpt-any, dynamic macros, on-press/release-delay and chords v2; boundary numbers and deliberately rejected ones included) x up to 3 rewritten variants: one single rewrite, one composition of 2-3 applied to the SAME top-level item (optionally following the definition the previous rewrite created), one free composition of 2-4 (quick) / 2-6 (thorough), drawn from 13 kinds {defalias + @name at an action position of a layer cell or alias value or nested in multi/tap-hold/fork/switch/tap-dance; defvar of a whole action list; defvar of a key atom or timeout number; the same through (concat ..); a chain of 2 or 3 variables (site = $v0, v0 = $v1, [v1 = $v2,] last = the value, with probability 1/4 the value of a key / number written as (concat ..)) standing for a whole action list, a plain list (fork / tap-hold-release-keys / tap-hold-except-keys key list, push-msg sub-list), a key atom, a timeout number, a string (layer name of layer-switch / layer-while-held / layer-toggle / release-layer, virtual-key name of on-press / on-release / on-press-fakekey / on-release-fakekey, push-msg item, unicode character) or the whole value of an existing defvar entry, with every link defined after the variable it names (var-chain: the definitions in one defvar block, one defvar form per link at random places in that relative order, or 2+1 / 1+2; for the value of an existing variable: written into its defvar form directly in front of it); the same chain written in any OTHER definition order (var-chain-fwd: 1 order for length 2, 5 for length 3, so at least one variable's whole value names a variable defined later in the same block or in a later defvar form, possibly in an included file or behind a platform wrapper after composition); deftemplate with the sub-action or number as argument expanded with t!/template-expand; the same guarded by if-equal / if-not-equal with decoy branches; the same with conditionals nested 2-3 deep (if-equal, if-not-equal, if-in-list, if-not-in-list, true and false branches, false branches containing conditionals that would hold) both at the top of the template body and inside the action list; a whole deflayer / defalias item written as a template body with such conditionals inside its list and put back by a top-level expansion; 1-3 consecutive top-level items moved into an included file; items wrapped in (platform (linux) ..) plus an unparsable (platform (win winiov2) ..) decoy; a deflayer rewritten as deflayermap}. The configuration is kept as one flat item list with a file tag per item, so rewrites apply equally inside included files: platform-wrapped items, template definitions and expansions, aliases and variables can be defined in an included file and used in the main file after the include and vice versa. The first 1066 cases are the same for every seed: each kind singly on 30 configurations, then every ordered pair of kinds (169) applied to the same item, once staying on the item and once following the created definition, on 2 configurations each. Compared: accept/reject, mapped keys, key outputs, overrides, sequence trie, virtual-key map, options, layer names, Debug rendering of every mapped layer cell and virtual-key cell of every layer, and the OS trace (tick-exact, redundant releases dropped) + end state on 2 random physically consistent histories with OS repeats and gaps around every configured number. Non-trivial = variant with at least one rewrite applied; distinct = (accept/reject, rewrite kinds, action kinds in the configuration).".into()
     }
     fn assumptions(&self) -> Vec<String> {
         vec![
             "rewrite sites are restricted to places where the guide promises neutrality: aliases and variables only at action positions reachable from deflayer/deflayermap cells and defalias values (not in defvirtualkeys/defchords, not action names, not inside macros or quoted strings); aliases are defined directly before the item that uses them (a value inside a defalias item that refers, directly or through a variable/template, to an alias of the same item is not hoisted); templates are declared before their use and never nested in each other; include is applied to whole top-level items of the main file only (no nested includes), platform wraps exactly one item and is not nested in platform".into(),
-            "variables standing for atoms are only used for alphanumeric key names and timeout numbers".into(),
+            "variables standing for atoms are only used for alphanumeric key names, timeout numbers and (chain rewrites only) the free-form string / name positions listed in rule(); never for action names, never in defcfg / defsrc / deflocalkeys, never inside macros".into(),
+            "forward references between variables: the guide says a variable's value 'will be substituted wherever the variable is used', that the label 'can be used in the rest of the configuration', and that 'variables are allowed to refer to previously defined variables'; it does not say that naming a later variable is an error. All defvar forms are collected before anything that uses them is parsed and substitution happens at the use site, so a variable whose WHOLE value is $other is judged transparent in every definition order (var-chain-fwd). Because the guide's sentence literally promises only the backward order, violations that need a forward chain carry their own labels (':var-chain-fwd', 'x>var-chain-fwd', 'composed-with-var-chain-fwd') and never share a signature with the order the guide's example uses (var-chain). (concat ..) is documented to produce its string where it is written, so it only ever appears as the LAST link of a chain, with literal parts, never with a reference to a later variable".into(),
             "configurations whose Debug rendering is not a function of the text (two parses of the original differ) are compared on everything except the cell rendering".into(),
             "actions known to crash or sleep at run time on the unchanged tree (rpt-any, dynamic macros, on-press-delay, chords v2 with use-defsrc) are not generated".into(),
         ]
@@ -875,6 +1075,33 @@ impl Check for C16Check {
             ("applied:var-action", 300),
             ("applied:var-atom", 300),
             ("applied:var-concat", 300),
+            ("applied:var-chain", 300),
+            ("applied:var-chain-fwd", 300),
+            // accepted on both sides, i.e. the chain was really resolved at its use site
+            ("accepted_chain_len:2", 500),
+            ("accepted_chain_len:3", 500),
+            ("accepted_chain_order:v1-v0", 300),
+            ("accepted_chain_order:v0-v1", 300),
+            ("accepted_chain_order:v2-v1-v0", 300),
+            ("accepted_chain_order:v0-v1-v2", 100),
+            ("accepted_chain_order:v0-v2-v1", 100),
+            ("accepted_chain_order:v1-v0-v2", 100),
+            ("accepted_chain_order:v1-v2-v0", 100),
+            ("accepted_chain_order:v2-v0-v1", 100),
+            ("accepted_chain_forward_links:1", 500),
+            ("accepted_chain_forward_links:2", 100),
+            ("accepted_chain_layout:one-block", 500),
+            ("accepted_chain_layout:separate-forms", 500),
+            ("accepted_chain_layout:split", 300),
+            ("accepted_chain_layout:same-form-in-front", 100),
+            ("accepted_chain_site:action-list", 300),
+            ("accepted_chain_site:plain-list", 150),
+            ("accepted_chain_site:key", 300),
+            ("accepted_chain_site:number", 300),
+            ("accepted_chain_site:string", 300),
+            ("accepted_chain_site:var-value", 200),
+            ("accepted_chain_tail_concat", 80),
+            ("forward_chain_traces_equal", 1000),
             ("applied:template", 300),
             ("applied:template-if-equal", 300),
             ("applied:template-nested-cond", 300),
